@@ -16,6 +16,7 @@ graph (no dominator-tree approximations).
 from __future__ import annotations
 
 import ast
+import copy
 from dataclasses import dataclass, field
 from typing import Callable, Iterable, Iterator
 
@@ -198,6 +199,51 @@ def _is_const_false(e: ast.expr) -> bool:
     return isinstance(e, ast.Name) and e.id == "TYPE_CHECKING"
 
 
+def _condition_temps(fn: ast.AST) -> dict[str, ast.expr]:
+    """Locals that name a condition: assigned exactly once, by a plain assignment of a boolean combination / negation / comparison /
+    ``bool(...)``, from operands that are themselves assigned at most once in the function (so the value a later test sees is the
+    value of the condition where it was named).  Tests on such a local are compiled as the condition itself."""
+    if isinstance(fn, ast.Lambda):
+        return {}
+    stores: dict[str, int] = {}
+    attr_stores: set[str] = set()
+    cands: dict[str, ast.expr] = {}
+
+    def walk(node: ast.AST):
+        for ch in ast.iter_child_nodes(node):
+            if isinstance(ch, (ast.FunctionDef, ast.AsyncFunctionDef, ast.ClassDef, ast.Lambda)):
+                continue
+            yield ch
+            yield from walk(ch)
+
+    for n in walk(fn):
+        if isinstance(n, ast.Name) and isinstance(n.ctx, (ast.Store, ast.Del)):
+            stores[n.id] = stores.get(n.id, 0) + 1
+        elif isinstance(n, ast.Attribute) and isinstance(n.ctx, (ast.Store, ast.Del)):
+            attr_stores.add(n.attr)
+        if isinstance(n, ast.Assign) and len(n.targets) == 1 and isinstance(n.targets[0], ast.Name) and not hasattr(n, "_xsa_jump"):
+            v = n.value
+            if isinstance(v, (ast.BoolOp, ast.Compare)) or (isinstance(v, ast.UnaryOp) and isinstance(v.op, ast.Not)) or (
+                    isinstance(v, ast.Call) and isinstance(v.func, ast.Name) and v.func.id == "bool" and len(v.args) == 1):
+                cands[n.targets[0].id] = v
+    args = getattr(fn, "args", None)
+    out = {}
+    for name, v in cands.items():
+        if stores.get(name, 0) != 1:
+            continue
+        ok = True
+        for x in ast.walk(v):
+            if isinstance(x, ast.Name) and (stores.get(x.id, 0) > 1 or x.id == name):
+                ok = False
+            elif isinstance(x, ast.Attribute) and x.attr in attr_stores:
+                ok = False
+            elif isinstance(x, (ast.NamedExpr, ast.Await, ast.Yield, ast.YieldFrom)):
+                ok = False
+        if ok:
+            out[name] = v
+    return out
+
+
 class Builder:
     def __init__(self, fn: ast.AST):
         self.g = CFG(fn)
@@ -205,6 +251,7 @@ class Builder:
         self.loops: list[tuple[int, list[int]]] = []  # (head id, break sources)
         self.finals: list[Node] = []
         self.inline_jumps: list[tuple[int, list[int]]] = []
+        self.cond_temps = _condition_temps(fn)
 
     # each _stmt returns the list of "dangling" (node id, label) pairs that flow to the next stmt
     def build(self) -> CFG:
@@ -259,6 +306,14 @@ class Builder:
         if isinstance(test, ast.UnaryOp) and isinstance(test.op, ast.Not):
             t, f = self._cond(test.operand, ins, stmt)
             return f, t
+        if isinstance(test, ast.Call) and isinstance(test.func, ast.Name) and test.func.id == "bool" and len(test.args) == 1 and not test.keywords:
+            return self._cond(test.args[0], ins, stmt)
+        if isinstance(test, ast.Name) and test.id in self.cond_temps:
+            # a named condition (``flag = a and not b`` ... ``if flag:``) is compiled like the condition itself
+            value = copy.deepcopy(self.cond_temps[test.id])
+            for x in ast.walk(value):
+                x._xsa_cond_temp = test.id
+            return self._cond(value, ins, stmt)
         n = g._new("test", test, stmt)
         g._own(n, test)
         self._connect(ins, n.id)
